@@ -51,17 +51,34 @@ def _put(kind_items, obj):
         obj.update(items)
 
 
+def _cache_of(obj):
+    """The functools cache wrapper behind a module-level function or a (static/class) method, if any."""
+    f = getattr(obj, "__func__", obj)
+    return f if callable(getattr(f, "cache_clear", None)) and callable(getattr(f, "cache_info", None)) else None
+
+
+def _cache_size(f):
+    try:
+        return f.cache_info().currsize
+    except Exception:  # noqa
+        return None
+
+
 def snapshot():
-    snap = {"mods": [], "classes": [], "containers": [], "reclimit": sys.getrecursionlimit()}
+    snap = {"mods": [], "classes": [], "containers": [], "caches": [], "reclimit": sys.getrecursionlimit()}
     seen = set()
     for mname, mod in _mods():
         d = vars(mod)
         snap["mods"].append((mname, mod, dict(d)))
         for name, obj in list(d.items()):
+            if _cache_of(obj) is not None:
+                snap["caches"].append((f"{mname}.{name}", _cache_of(obj), _cache_size(_cache_of(obj))))
             if isinstance(obj, type) and getattr(obj, "__module__", None) == mname:
                 cd = {k: v for k, v in vars(obj).items()}
                 snap["classes"].append((f"{mname}.{name}", obj, cd))
                 for k, v in cd.items():
+                    if _cache_of(v) is not None:
+                        snap["caches"].append((f"{mname}.{name}.{k}", _cache_of(v), _cache_size(_cache_of(v))))
                     c = _copy(v)
                     if c is not None and id(v) not in seen:
                         seen.add(id(v))
@@ -109,6 +126,15 @@ def restore(snap):
         if not _same(c, obj):
             changed.append(f"{name} (contents)")
             _put(c, obj)
+    for name, f, size in snap.get("caches", ()):
+        # a memo table cannot be put back entry by entry; emptying it is neutral for a pure function, and a
+        # snapshot is only ever taken before the explored steps (entries made by warm-up are recomputed)
+        if _cache_size(f) != size:
+            changed.append(f"{name} (functools cache)")
+        try:
+            f.cache_clear()
+        except Exception:  # noqa
+            pass
     if sys.getrecursionlimit() != snap["reclimit"]:
         changed.append("sys.recursionlimit")
         sys.setrecursionlimit(snap["reclimit"])
@@ -147,6 +173,9 @@ def diff_names(snap):
     for name, obj, c in snap["containers"]:
         if not _same(c, obj):
             changed.append(f"{name}~{addr.sub('0x', repr(sorted(map(repr, (dict.keys(obj) if isinstance(obj, dict) else obj)))))[:300]}")
+    for name, f, size in snap.get("caches", ()):
+        if _cache_size(f) != size:
+            changed.append(f"{name}#cache={_cache_size(f)}")
     if sys.getrecursionlimit() != snap["reclimit"]:
         changed.append(f"recursionlimit={sys.getrecursionlimit()}")
     return sorted(changed)
